@@ -373,6 +373,15 @@ class Models:
         A(r'^core::num::<impl (u8|u16|u32|u64|usize)>::wrapping_mul$', lambda ex, c, a: I(z3.simplify(a[0].e * a[1].e), False, a[0].ty))
         A(r'^core::num::<impl (u8|u16|u32|u64|usize)>::wrapping_add$', lambda ex, c, a: I(z3.simplify(a[0].e + a[1].e), False, a[0].ty))
         A(r'^core::num::<impl (u8|u16|u32|u64|usize)>::wrapping_sub$', lambda ex, c, a: I(z3.simplify(a[0].e - a[1].e), False, a[0].ty))
+        A(r'^<T as Num>::from_str_radix$', self.m_t_from_str_radix)
+        A(r'^<T as TryFrom<u64>>::try_from$', self.m_t_try_from)
+        A(r'^<char as From<u8>>::from$', lambda ex, c, a: I(z3.simplify(z3.ZeroExt(24, a[0].e)), False, 'char'))
+        A(r'^<std::str::Bytes<\'_> as Iterator>::next$', self.m_bytes_next)
+        A(r'^core::slice::<impl \[.*\]>::binary_search_by::<', self.m_binary_search_by)
+        A(r'^(?:core|std)::f64::<impl f64>::is_infinite$', lambda ex, c, a: z3.fpIsInf(a[0].e))
+        A(r'^(?:core|std)::f64::<impl f64>::is_nan$', lambda ex, c, a: z3.fpIsNaN(a[0].e))
+        A(r'^(?:core|std)::f64::<impl f64>::is_finite$', lambda ex, c, a: z3.Not(z3.Or(z3.fpIsInf(a[0].e), z3.fpIsNaN(a[0].e))))
+        A(r'^(?:core|std)::f64::<impl f64>::is_sign_negative$', lambda ex, c, a: z3.fpIsNegative(a[0].e))
         # ---------------- String building ----------------
         A(r'^std::string::String::with_capacity$', lambda ex, c, a: Str())
         A(r'^std::string::String::new$', lambda ex, c, a: Str())
@@ -622,6 +631,51 @@ class Models:
         bs = [x.e for x in a[0].fields]
         return I(z3.simplify(z3.Concat(*reversed(bs))) if len(bs) > 1 else bs[0], False, ty)   # little endian (x86_64)
 
+    def m_t_from_str_radix(self, ex, c, a):
+        if not ex.tbind:
+            raise Unsupported('generic T is not bound')
+        return from_str_radix(ex, as_bytes_list(ex, a[0]), ex.concretize(a[1]), ex.tbind[-1])
+
+    def m_t_try_from(self, ex, c, a):
+        if not ex.tbind:
+            raise Unsupported('generic T is not bound')
+        ty = ex.tbind[-1]
+        bits, signed = INT_TYPES[ty]
+        v = a[0]
+        lim = (1 << (bits - 1)) - 1 if signed else (1 << bits) - 1
+        if bits >= 64 and not signed:
+            return ok(I(v.e, False, ty))
+        if ex.decide(z3.UGT(v.e, bv(lim, 64))):
+            return err(Opaque('TryFromIntError'))
+        return ok(I(z3.simplify(z3.Extract(bits - 1, 0, v.e)), signed, ty))
+
+    def m_bytes_next(self, ex, c, a):
+        it = ex.deref(a[0])
+        if it.pos >= it.slice.len:
+            return NONE()
+        x = it.slice.buf[it.slice.off + it.pos]
+        it.pos += 1
+        return some(I(x, False, 'u8'))
+
+    def m_binary_search_by(self, ex, c, a):
+        """core::slice::binary_search_by as implemented in the standard library of the toolchain in use (branch-light loop:
+        base moves to mid unless the probe is Greater); the result on an unsorted slice is whatever this loop yields"""
+        sl = self.any_slice(ex, a[0])
+        size = sl.len
+        if size == 0:
+            return err(usize(0))
+        base = 0
+        while size > 1:
+            half = size // 2
+            mid = base + half
+            o = ex.call_closure(a[1], [ElemRef(sl, mid)])
+            base = base if o.variant == 'Greater' else mid
+            size -= half
+        o = ex.call_closure(a[1], [ElemRef(sl, base)])
+        if o.variant == 'Equal':
+            return ok(usize(base))
+        return err(usize(base + (1 if o.variant == 'Less' else 0)))
+
     def m_iter_find(self, ex, c, a):
         it = ex.deref(a[0])
         sl = it.slice
@@ -702,6 +756,16 @@ class Models:
         valf = z3.Function(f'parse_f64_val_{n}', *([z3.BitVecSort(8)] * n + [z3.Float64()])) if n else None
         if n == 0:
             return err(Opaque('ParseFloatError'))
+        vals = [z3.simplify(x) for x in b]
+        if all(z3.is_bv_value(x) for x in vals):
+            # the special values of <f64 as FromStr>: [+-]?(inf|infinity|nan), ASCII case-insensitive
+            t = bytes(x.as_long() for x in vals).lower()
+            neg = t.startswith(b'-')
+            core_t = t[1:] if t[:1] in (b'+', b'-') else t
+            if core_t in (b'inf', b'infinity'):
+                return ok(F(z3.fpMinusInfinity(z3.Float64()) if neg else z3.fpPlusInfinity(z3.Float64())))
+            if core_t == b'nan':
+                return ok(F(z3.fpNaN(z3.Float64())))
         if ex.decide(okf(*b)):
             return ok(F(valf(*b)))
         return err(Opaque('ParseFloatError'))
@@ -715,6 +779,13 @@ class Models:
 
     def m_num_to_string(self, ex, c, a):
         v = ex.deref(a[0]) if isinstance(a[0], (Ref, ElemRef)) else a[0]
+        if isinstance(v, F):
+            # Display for f64: NaN / inf / -inf are fixed texts; finite values need core::fmt (outside the engine)
+            if ex.decide(z3.fpIsNaN(v.e)):
+                return Str(lit_bytes(b'NaN'))
+            if ex.decide(z3.fpIsInf(v.e)):
+                return Str(lit_bytes(b'-inf' if ex.decide(z3.fpIsNegative(v.e)) else b'inf'))
+            raise Unsupported('to_string of a finite symbolic float (core::fmt is outside the engine)')
         if isinstance(v, I):
             k = v.conc()
             if k is not None:
